@@ -140,3 +140,42 @@ Example C14_nonvacuous :
   /\ buffered (p_run ex_h_bc ex_cfg 2 ex_g0 ex_h_evs) = 4%nat
   /\ hrun_ok ex_h_bc ex_cfg 2 5 (p_init ex_g0) ex_h_evs_bad = false.
 Proof. split; [intros d; lia|]. vm_compute. repeat split; reflexivity. Qed.
+
+(* ---- the option layer (Model/Options.v; regenerated from core/src/socket/options.rs on every run and proved equal,
+   Proofs/OptionsCheck.v): what the integer handed to set_option means, for EVERY byte string ---- *)
+From RZ Require Import Model.Options Proofs.OptionsProofs Proofs.OptionsCompose.
+(* SNDTIMEO: accepted iff the value is a 4-byte integer v >= -1; then the send paths see None (wait) for -1, Some 0
+   (never wait) for 0, Some v ms otherwise, RCVTIMEO and every other option are untouched; anything else is refused
+   under the option's id and nothing changes.  RCVTIMEO likewise. *)
+Theorem C14_sndtimeo_option_semantics : forall (o : opts) (b : bytes), (match apply_opt o SNDTIMEO b with | inl o' => exists v, i32_of b = Some v /\ -1 <= v /\ sndtimeo_of o' = timeo_decode v /\ rcvtimeo_of o' = rcvtimeo_of o /\ (forall g, g <> F_sndtimeo -> o' g = o g) | inr e => e = EVal SNDTIMEO /\ (i32_of b = None \/ exists v, i32_of b = Some v /\ v < -1) end)%Z.
+Proof. exact sndtimeo_semantics. Qed.
+Theorem C14_rcvtimeo_option_semantics : forall (o : opts) (b : bytes), (match apply_opt o RCVTIMEO b with | inl o' => exists v, i32_of b = Some v /\ -1 <= v /\ rcvtimeo_of o' = timeo_decode v /\ sndtimeo_of o' = sndtimeo_of o /\ (forall g, g <> F_rcvtimeo -> o' g = o g) | inr e => e = EVal RCVTIMEO /\ (i32_of b = None \/ exists v, i32_of b = Some v /\ v < -1) end)%Z.
+Proof. exact rcvtimeo_semantics. Qed.
+(* every v in -1 .. i32::MAX is accepted, and get_option returns exactly the value that was set *)
+Theorem C14_timeo_option_get_after_set : forall (o : opts) (v : Z), (-1 <= v <= 2147483647)%Z -> (exists o', apply_opt o SNDTIMEO (i32_bytes v) = inl o' /\ retrieve_opt o' SNDTIMEO = GOk (i32_bytes v)) /\ (exists o', apply_opt o RCVTIMEO (i32_bytes v) = inl o' /\ retrieve_opt o' RCVTIMEO = GOk (i32_bytes v)).
+Proof. exact timeo_get_after_set. Qed.
+(* SNDHWM / RCVHWM: any 4-byte integer is accepted, the mark is max(v, 0) messages, nothing else changes *)
+Theorem C14_hwm_option_semantics : forall (o : opts) (b : bytes), (match apply_opt o SNDHWM b with | inl o' => exists v, i32_of b = Some v /\ sndhwm_of o' = Z.to_N (Z.max v 0) /\ (forall g, g <> F_sndhwm -> o' g = o g) | inr e => e = EVal 0 /\ i32_of b = None end)%Z /\ (match apply_opt o RCVHWM b with | inl o' => exists v, i32_of b = Some v /\ rcvhwm_of o' = Z.to_N (Z.max v 0) /\ (forall g, g <> F_rcvhwm -> o' g = o g) | inr e => e = EVal 0 /\ i32_of b = None end)%Z.
+Proof. exact hwm_semantics. Qed.
+(* a set_option call changes the rule's own field and the flags it switches on, nothing else; a refused call nothing *)
+Theorem C14_option_frame : forall (o : opts) (id : Z) (b : bytes) (o' : opts) (r : rule), apply_opt o id b = inl o' -> find_rule apply_rules id = Some r -> forall g : field, g <> r_field r -> ~ In g (r_also r) -> o' g = o g.
+Proof. exact apply_frame. Qed.
+Theorem C14_option_error_keeps_config : forall (o : opts) (id : Z) (b : bytes) (e : oerr), apply_opt o id b = inr e -> apply_all o [(id, b)] = (o, [Some e]).
+Proof. exact apply_all_error_keeps. Qed.
+(* composed with the send / recv decisions above *)
+Theorem C14_sndtimeo_zero_option_immediate : forall (fire : N -> N) (M : Type) (v : variant) (cap len : nat) (w : waitres) (q : list M) (m : M) (o : opts), (cap <= len)%nat -> exists o', apply_opt o SNDTIMEO (i32_bytes 0) = inl o' /\ let r := send_path fire v (try_of cap len false) (sndtimeo_of o') w in (exists f : fate, r = Ret AWouldBlock 0 f /\ f <> Enqueued) /\ after_send q m r = q.
+Proof. exact sndtimeo_zero_option_immediate. Qed.
+Theorem C14_sndtimeo_positive_option : forall (fire : N -> N) (slack : N) (o : opts) (d : Z) (v : variant) (w : waitres), (forall x : N, x <= fire x /\ fire x <= x + slack) -> is_sync v = false -> (0 < d <= 2147483647)%Z -> exists o', apply_opt o SNDTIMEO (i32_bytes d) = inl o' /\ positive_spec slack v (Z.to_N d) w (send_path fire v TsFull (sndtimeo_of o') w).
+Proof. exact sndtimeo_positive_option. Qed.
+Theorem C14_rcvtimeo_option_extremes : forall (fire : N -> N) (o : opts) (v : rvariant) (tp : trypop) (w : popres), (exists o', apply_opt o RCVTIMEO (i32_bytes (-1)) = inl o' /\ recv_path fire v false (rcvtimeo_of o') tp w = match w with PAt t => RRet AOk t true | PClosedAt t => RRet AClosed t false | PNever => RHang end) /\ (exists o', apply_opt o RCVTIMEO (i32_bytes 0) = inl o' /\ recv_path fire v false (rcvtimeo_of o') (try_pop_of 0) w = RRet AWouldBlock 0 false).
+Proof. exact rcvtimeo_option_extremes. Qed.
+Theorem C14_option_defaults : sndtimeo_of default_opts = None /\ rcvtimeo_of default_opts = None /\ linger_of default_opts = Some 0 /\ sndhwm_of default_opts = 256 /\ rcvhwm_of default_opts = 256 /\ maxmsgsize_of default_opts = (-1)%Z /\ heartbeat_ivl_of default_opts = None /\ handshake_ivl_of default_opts = None /\ reconnect_ivl_of default_opts = Some 1000 /\ reconnect_ivl_max_of default_opts = Some 0.
+Proof. exact default_semantics. Qed.
+Example C14_options_nonvacuous :
+  match apply_opt default_opts SNDTIMEO (i32_bytes 250) with
+  | inl o' => sndtimeo_of o' = Some 250 /\ retrieve_opt o' SNDTIMEO = GOk [250; 0; 0; 0] /\ rcvtimeo_of o' = None
+  | inr _ => False
+  end
+  /\ apply_opt default_opts SNDTIMEO (i32_bytes (-2)) = inr (EVal SNDTIMEO)
+  /\ apply_opt default_opts SNDTIMEO [1; 0; 0] = inr (EVal SNDTIMEO).
+Proof. vm_compute. repeat split; reflexivity. Qed.
